@@ -866,9 +866,9 @@ func TestVerifC26Table(t *testing.T) {
 	}
 	e.Exhaustive(true)
 	e.Extra("endpoint_methods", keys)
-	e.Extra("endpoint_methods_registered", real)
-	e.Extra("endpoint_methods_synthetic", len(tab)-real)
-	e.Extra("grid_per_endpoint_method", len(addrs)*len(auths)*len(polkits)*len(connSets)*2*len(grants))
+	e.Extra("endpoint_methods_registered", fmt.Sprint(real))
+	e.Extra("endpoint_methods_synthetic", fmt.Sprint(len(tab)-real))
+	e.Extra("grid_per_endpoint_method", fmt.Sprint(len(addrs)*len(auths)*len(polkits)*len(connSets)*2*len(grants)))
 }
 
 func c26SafeExec(c c26Case) (o verifkit.Outcome, err error) {
